@@ -63,6 +63,26 @@ Lemma gaussian_ell_code_forms (y mu v s2 : R) : s2 <> 0 ->
   /\ - / 2 * (@ell_rat RF y mu v s2 + ln s2 + ln (2 * PI)) = logN1 y mu s2 - v / (2 * s2).
 Proof. intros H. split; [apply gaussian_ell_is_expectation|apply gaussian_ell_code_form]; exact H. Qed.
 
+(* covariance direction, diagonal (commuting) case: -1/2 tr(P S) + 1/2 log det S with P = diag(p),
+   S = diag(s) is maximal at S = P^-1 *)
+Lemma elbo_cov_part_diag_max n (p s : nat -> R) :
+  (forall i, (i < n)%nat -> 0 < p i) -> (forall i, (i < n)%nat -> 0 < s i) ->
+  @sum RF n (fun i => - / 2 * (p i * s i) + / 2 * ln (s i))
+  <= @sum RF n (fun i => - / 2 * (p i * / p i) + / 2 * ln (/ p i)).
+Proof.
+  intros Hp Hs. induction n as [|n IH]; [cbn; lra|].
+  change (@sum RF (S n) (fun i => - / 2 * (p i * s i) + / 2 * ln (s i)))
+    with (@sum RF n (fun i => - / 2 * (p i * s i) + / 2 * ln (s i)) + (- / 2 * (p n * s n) + / 2 * ln (s n))).
+  change (@sum RF (S n) (fun i => - / 2 * (p i * / p i) + / 2 * ln (/ p i)))
+    with (@sum RF n (fun i => - / 2 * (p i * / p i) + / 2 * ln (/ p i)) + (- / 2 * (p n * / p n) + / 2 * ln (/ p n))).
+  assert (H1 := IH (fun i Hi => Hp i ltac:(lia)) (fun i Hi => Hs i ltac:(lia))).
+  pose proof (Hp n ltac:(lia)) as Hpn. pose proof (Hs n ltac:(lia)) as Hsn.
+  assert (Hps : 0 < p n * s n) by (apply Rmult_lt_0_compat; assumption).
+  pose proof (ln_le_minus_1 (p n * s n) Hps) as H2.
+  rewrite (ln_mult (p n) (s n) Hpn Hsn) in H2.
+  rewrite (ln_Rinv (p n) Hpn). rewrite Rinv_r by lra. lra.
+Qed.
+
 (* non-vacuity of the optimal-q hypotheses *)
 From Coq Require Import QArith Qcanon.
 Import ListNotations.
